@@ -313,11 +313,42 @@ def _sig(cfg):
     return lambda l: l + f"[{cfg['schema']}]"
 
 
+SPECS = [0, [], [0], "a", ["a", "b"], 1, [1, 2]]  # column selections a ColumnTransformer accepts: scalars (falsy 0 too), lists, the empty list
+
+
+def sc_enum_specs(cfg):
+    """enumerate_pipeline_models only (no fit): whatever the column selection of a ColumnTransformer branch is --
+    a scalar, the scalar 0, an empty list -- the branch's estimator is yielded once, with its selection"""
+    hp = loader.load("helpers.pipeline")
+
+    def scenario(C):
+        s0, s1 = SPECS[C.choice("spec0", len(SPECS))], SPECS[C.choice("spec1", len(SPECS))]
+        t0, t1, t2 = Tr(1), Tr(2), Tr(3)
+        inner = Pipeline([("u", t1), ("v", t2)])
+        ct = ColumnTransformer([("b0", t0, s0), ("b1", inner, s1)])
+        pipe = Pipeline([("ct", ct), ("final", Reg())])
+        got = list(hp.enumerate_pipeline_models(pipe))
+        want = [pipe, ct, t0, inner, t1, t2, pipe.steps[1][1]]
+        models = [g[1] for g in got]
+        C.true(len(models) == len(want) and all(any(m is w for m in models) for w in want) and len(set(map(id, models))) == len(models), "enumerate/every-nested-estimator-exactly-once(any-column-selection)", detail=(repr(s0), repr(s1), [type(m).__name__ for m in models]))
+        coords = [tuple(g[0]) for g in got]
+        C.true(len(set(coords)) == len(coords), "enumerate/distinct-coordinates")
+        for g in got:
+            if g[1] is t0:
+                C.true(g[2] == s0 if not isinstance(s0, list) else list(g[2]) == s0, "enumerate/columns-of-a-ColumnTransformer-branch", detail=(repr(g[2]), repr(s0)))
+
+    return scenario
+
+
 def run_config(cfg):
+    if cfg.get("kind") == "enum_specs":
+        return harness.run_scenario(sc_enum_specs(cfg), f"C16{cfg}", cfg=cfg, sig=lambda l: l, on_exception_label="raises")
     return harness.run_scenario(scenario_for(cfg), f"C16{cfg}", cfg=cfg, sig=_sig(cfg), on_exception_label="raises")
 
 
 def replay(cfg, inputs, label):
+    if cfg.get("kind") == "enum_specs":
+        return harness.replay_scenario(sc_enum_specs(cfg), inputs, label, "raises")
     return harness.replay_scenario(scenario_for(cfg), inputs, label, "raises")
 
 
@@ -327,6 +358,7 @@ def configs(tier):
         for s1 in (0, 1):
             for s2 in (0, 1, 2, 3):
                 out.append(dict(schema=schema, max_nodes=3 if tier == "quick" else 4, fixed=dict(s1=s1, s2=s2)))
+    out.append(dict(kind="enum_specs"))
     return out
 
 
